@@ -209,6 +209,30 @@ CORPUS = [
      [((0.2, 0, 0), 'm1_-10.41234'), ((1.5, 0, 0), 'm1_-10.41235'),
       ((-3, 0, 0), 'm2_6.408751e-2'), ((3, 0, 0), 'm2_6.408752e-2')],
      {'m1_-10.41234', 'm1_-10.41235', 'm2_6.408751e-2', 'm2_6.408752e-2'}),
+    # one density VALUE of one material under spellings that normalize_float keeps
+    # apart: each has its own composition, and GEOMCOMP names none that is not
+    # written (seeded change C09_F)
+    ('value-twin-spellings', '''corpus value twins
+1 1 -1 -1 imp:n=1
+2 1 -1.0 1 -2 imp:n=1
+3 2 .5 2 -3 imp:n=1
+4 2 0.5 3 -4 imp:n=1
+5 0 4 -5 fill=1 imp:n=1
+6 0 5 imp:n=0
+7 3 -1.5 -6 u=1 imp:n=1
+8 3 -1.5+0 6 u=1 imp:n=1
+
+1 so 1
+2 so 2
+3 so 3
+4 so 4
+5 so 8
+6 px 0
+
+''' + MATS, [],
+     [((0.2, 0, 0), 'm1_-1'), ((1.5, 0, 0), 'm1_-1.0'), ((2.5, 0, 0), 'm2_.5'),
+      ((3.5, 0, 0), 'm2_0.5'), ((-6, 0, 0), 'm3_-1.5'), ((6, 0, 0), 'm3_-1.5e+0')],
+     {'m1_-1', 'm1_-1.0', 'm2_.5', 'm2_0.5', 'm3_-1.5', 'm3_-1.5e+0'}),
     # the two spellings repaired in /repo 6d1467b
     ('repaired-spellings', '''corpus repaired
 1 1 -1.0 -1 imp:n=1
